@@ -508,6 +508,34 @@ example : (run cfgB (init cfgB) [
     [([("p", 3), ("i", 4), ("d", 1)], [("p", 3), ("i", 4), ("d", 1)], true),
      ([("p", 7), ("i", 4), ("d", 1)], [("p", 7), ("i", 4), ("d", 1)], false)] := by decide
 
+/-- **struct_write_refused_at_first_member_is_inert** — per-member layout, repaired code (`fix:` 4979d20, the C04 finding
+`…refused-but-struct-and-members-announced-again`): a client write of the whole struct whose FIRST member refuses (its
+`write_<m>` - wrapper checks included - raises) ends with that exception and leaves everything as it was: no value stored,
+no pending flag touched, NO update message (the events of the step are empty).  Before the repair the `finally` clause
+assigned the struct its own value and struct and members were announced again.  A refusal at a LATER member still
+re-synchronises struct and members (`struct_members_agree`; second example below). -/
+theorem struct_write_refused_at_first_member_is_inert (cfg : Cfg) (hc : cfg.combined = false) (m : String) (ms : List String)
+    (hm : cfg.members = m :: ms) (v : Dict) (wA : WRes Dict) (wB : String → WRes Val) (k : ExcKind) (s : St)
+    (hv : wf cfg v = true) (hw : cfg.hasW m = true) (hf : wB m = .fail k) :
+    step1 cfg s (.writeStruct v wA wB) = { s with evs := [], ok := false, exc := some k } := by
+  unfold step1
+  simp only [step, hc, Bool.false_eq_true, if_false]
+  rw [writeStructB_first_refused cfg m ms hm v wB k _ hv hw hf]
+  rfl
+
+/-- non-vacuity: the hypotheses hold for `cfgB`; the first member refusing sends nothing (a pending read error of `i` stays
+pending), the second member refusing leaves `p` written and struct and members in agreement, announced -/
+example : cfgB.combined = false ∧ cfgB.members = "p" :: ["i", "d"] ∧ wf cfgB [("p", 3), ("i", 30), ("d", 1)] = true ∧
+    cfgB.hasW "p" = true := by decide
+
+example : (run cfgB { struct := (init cfgB).struct, mem := (init cfgB).mem, mP := ["i"] } [
+      .writeStruct [("p", 3), ("i", 30), ("d", 1)] (.fail .secop) (fun _ => .fail .secop),
+      .writeStruct [("p", 3), ("i", 30), ("d", 1)] (.fail .secop) (fun m => if m = "p" then .retNone else .fail .secop)]).map
+        (fun s => (s.struct == s.mem, s.mem, s.evs, s.mP, s.ok)) =
+    [(true, [("p", 0), ("i", 0), ("d", 0)], [], ["i"], false),
+     (true, [("p", 3), ("i", 0), ("d", 0)],
+      [.mem "p" 3, .mem "p" 3, .mem "i" 0, .mem "d" 0, .struct [("p", 3), ("i", 0), ("d", 0)]], [], false)] := by decide
+
 /-- non-vacuity, mixed layout: a member write stores the struct through the plain `write_<struct>` wrapper and ends with
 the programmer's `read_i` (which reports 6, not the requested 5); a write of the other member ends with the generated
 read through `read_<struct>` -/
